@@ -96,6 +96,7 @@ def run(rep, thorough):
                 w['months'], w['days'], w['seconds'], rp['how'].get('printed'), rp['how'].get('equal_after_reparse'))
             out = rep.counterexample(key, what[:500], {'witness': w, 'replay': rp}, rp['reproduced'])
             rep.obligation(out == 'known')
+    print_parse_probes(rep)
     rep.solver(time.time() - t0, n)
     rep.cov['functions_encoded'] = list(rep.cov.get('functions_encoded', [])) + ['Interval::{years, months, days, hours, minutes, seconds} and the derived PartialEq (from MIR)']
     rep.cov['trusted_base'] = list(rep.cov.get('trusted_base', [])) + [
@@ -103,6 +104,51 @@ def run(rep, thorough):
         'mirsmt/bv2int.py exact bit-vector -> integer translation (queries decided over the integers: %d)' % engine.USED_INT[0]]
     rep.cov.setdefault('bounds', {})
     rep.cov['bounds']['interval print/parse'] = 'all i32 months and days, time part a whole number of seconds with |seconds| < %d' % bound
+
+
+def print_parse_probes(rep):
+    """Display / FromStr of dates, timestamps and floats go through chrono / std::fmt, outside both solver engines.  The
+    native replay binary prints and re-parses boundary values of each type on the real build (concrete probes of the
+    `Display/FromStr is a bijection` assumption that C20 states and C19 demands; not a solver decision)."""
+    import subprocess, re as _re
+    from kani import run as krun
+    try:
+        krun.native_replay('c19_print_parse_probe', [[0]])
+        exe = krun._replay_built['dev']
+        out = subprocess.run([exe, 'c19_print_parse_probe', '0'], capture_output=True, text=True, timeout=120).stdout
+    except Exception as ex:
+        rep.fail_inconclusive('print/parse probes did not run: %s' % ex)
+        return
+    m = _re.search(r'PROBE-SUMMARY values=(\d+) failing=(\d+)', out)
+    if not m:
+        rep.fail_inconclusive('print/parse probes gave no summary')
+        return
+    rep.cov['print_parse_probes'] = {'values': int(m.group(1)), 'failing': int(m.group(2)), 'types': 'Date, Timestamp, TimestampTz, i16/i32/i64, bool, F64 (boundary values)',
+                                     'note': 'concrete probes on the real build, not a solver decision'}
+    seen = set()
+    for ln in out.splitlines():
+        mm = _re.match(r'PROBE (\w+) (\w+)\((-?\d+)\) (.*)$', ln)
+        if not mm:
+            if ln.startswith('PROBE ') and not ln.startswith('PROBE-SUMMARY'):
+                key = 'print-parse:%s:other' % ln.split()[1]
+                if key not in seen:
+                    seen.add(key)
+                    rep.obligation(rep.counterexample(key, 'print/parse probe: ' + ln[:300], {'line': ln}, True) == 'known')
+            continue
+        ty, _, val, rest = mm.groups()
+        v = int(val)
+        if ty in ('Timestamp', 'TimestampTz'):
+            cls = 'sub-second-part' if v % 1000000 != 0 else 'whole-seconds'
+        elif ty == 'Date':
+            cls = 'year-beyond-9999' if v > 2932896 else ('year-before-1' if v < -719162 else 'common-era')
+        else:
+            cls = 'other'
+        key = 'print-parse:%s:%s' % (ty, cls)
+        if key in seen:
+            continue
+        seen.add(key)
+        out_c = rep.counterexample(key, 'parse(display(x)) != x for %s(%s): %s' % (ty, val, rest[:200]), {'line': ln}, True)
+        rep.obligation(out_c == 'known')
 
 
 def find_fn1(prog, pattern):
